@@ -8,7 +8,7 @@ from ..cfg import NORMAL, Node, handler_classes
 from ..core import Ctx
 from ..flow import ALL, find_path, names_in
 from ..model import AnalysisError, FunctionInfo, dotted, norm_text
-from .common import call_keyword_states, call_keywords, effective_compare, facts_at, owner_tops, edge_target, handler_exits, handler_nodes, in_handler, kwarg, reachable_from
+from .common import call_keyword_states, call_keywords, effective_compare, eval3, facts_at, resolve_value, owner_tops, edge_target, handler_exits, handler_nodes, in_handler, kwarg, reachable_from
 
 EXPLANATION = (
     "Static analysis of file_lock.py / lock_provider.py: (R1) every exclusive flock / msvcrt.locking attempt carries the "
@@ -39,6 +39,11 @@ def check(ctx: Ctx) -> None:
     lock_dir_private(ctx)
     lock_identity_canonical(ctx)
     fallback_break_only_when_stale(ctx)
+    # "a lock is taken over only after its lease lapsed": the lease age is LastModified against an aware UTC now
+    from .c20 import r11_utc_ages
+    r11_utc_ages(ctx, "C19.R12")
+    release_always_lets_go(ctx)
+    polling_break_double_check(ctx)
 
 
 def lock_dir_private(ctx: Ctx, rid: str = "C19.R9") -> None:
@@ -122,6 +127,79 @@ def fallback_break_only_when_stale(ctx: Ctx, rid: str = "C19.R11") -> None:
                "the lock file is unlinked only when its mtime is older than a multiple of the timeout" if ok else
                "the lock file of a holder that may be alive is removed: the next O_EXCL create succeeds - two holders")
     ctx.ob(rid, f, "fallback break sites enumerated", None, True, f"{len(unl)} unlink site(s)", nontrivial=False)
+
+
+def release_always_lets_go(ctx: Ctx, rid: str = "C19.R13") -> None:
+    ctx.rule(rid, "release() lets go on every path: once past the `not is_locked` guard, every way out of S3LockProviderBase.release "
+             "(normal completion, the 404 branch, the error branches) has stopped the heartbeat and cleared is_locked - a failed "
+             "delete must leave a lock that EXPIRES, not one that the daemon heartbeat keeps renewing for the life of the process", 2)
+    base = ctx.prog.cls("lock_provider.S3LockProviderBase")
+    from .c20 import family
+    for ci in family(ctx, base):
+        f = ci.methods.get("release")
+        if f is None:
+            if ci is base:
+                raise AnalysisError("S3LockProviderBase.release vanished")
+            continue
+        g = ctx.cfg(f)
+        guard = [b for b in g.nodes if b.kind == "branch" and b.ast is not None and "is_locked" in norm_text(b.ast)]
+        start = g.entry
+        if guard:
+            # the edge on which the lock IS held
+            v = eval3(guard[0].ast, lambda e: True if (isinstance(e, ast.Attribute) and e.attr == "is_locked") else None)
+            t = edge_target(g, guard[0], "true" if v else "false") if v is not None else None
+            start = t if t is not None else g.entry
+        exits = [g.exit] + [n.id for n in g.nodes if n.kind == "return" and n.id in reachable_from(g, start, ALL)]
+        hb = [n.id for n in g.calls() if any(t_.name == "_stop_heartbeat_thread" for t_ in ctx.eff.callees(f, n))
+              or (isinstance(n.ast, ast.Call) and isinstance(n.ast.func, ast.Attribute) and n.ast.func.attr == "_stop_heartbeat_thread")]
+        clr = [n.id for n in g.nodes if n.kind == "stmt" and isinstance(n.ast, ast.Assign) and any(
+            isinstance(t_, ast.Attribute) and t_.attr == "is_locked" for t_ in n.ast.targets)
+            and isinstance(n.ast.value, ast.Constant) and n.ast.value.value is False]
+        w1 = (None if start in hb else find_path(g, start, exits, avoid=hb, labels=ALL)) if hb else [start]
+        w2 = (None if start in clr else find_path(g, start, exits, avoid=clr, labels=ALL)) if clr else [start]
+        ctx.ob(rid, f, "every exit has stopped the heartbeat", None, bool(hb) and w1 is None,
+               "the renewing daemon thread never outlives release()", witness=ctx.path_witness(f, w1) if hb else None, text=ci.name + ":heartbeat")
+        ctx.ob(rid, f, "every exit has cleared is_locked", None, bool(clr) and w2 is None,
+               "after release() the provider does not claim the lock", witness=ctx.path_witness(f, w2) if clr else None, text=ci.name + ":flag")
+
+
+def polling_break_double_check(ctx: Ctx, rid: str = "C19.R14") -> None:
+    ctx.rule(rid, "the polling provider breaks a lock only if it did not change while the breaker waited: the delete of the lock "
+             "object is reached only when BOTH the LastModified and the ETag of the second HEAD equal the first (a renewal rewrites "
+             "the same body: same ETag, new LastModified)", 1)
+    f = ctx.fn("lock_provider.S3PollingLockProvider._check_and_break_expired_lock")
+    g = ctx.cfg(f)
+    sl = ctx.slicer(f)
+    dels = [n for n in g.calls() if n.id in g.reachable() and n.callee is not None and n.callee.kind == "prim" and n.callee.name == "boto.delete_object"]
+    if not dels:
+        raise AnalysisError("the polling provider no longer deletes an expired lock")
+    for d in dels:
+        same = set()
+        for pol, e, at in facts_at(ctx, f, d):
+            if not (isinstance(e, ast.Compare) and len(e.ops) == 1):
+                continue
+            eq = (isinstance(e.ops[0], ast.Eq) and pol == "true") or (isinstance(e.ops[0], ast.NotEq) and pol == "false")
+            if not eq:
+                continue
+            keys = set()
+            for side in (e.left, e.comparators[0]):
+                # the response field each side was read from (through locals, tuple unpacking, in-place helper returns)
+                ks = set()
+                for src, sat in resolve_value(ctx, f, side, at):
+                    if src is None:
+                        continue
+                    ks |= {c.value for c in ast.walk(src) if isinstance(c, ast.Constant) and c.value in ("LastModified", "ETag")}
+                    if not ks:
+                        ks |= {c for c in sl.origins(src, sat)["consts"] if c in ("LastModified", "ETag")}
+                keys.add(frozenset(ks))
+            if keys == {frozenset({"LastModified"})}:
+                same.add("LastModified")
+            if keys == {frozenset({"ETag"})}:
+                same.add("ETag")
+        ok = same == {"LastModified", "ETag"}
+        ctx.ob(rid, f, "lock broken only if LastModified AND ETag are unchanged", d, ok,
+               f"unchanged-checks dominating the delete: {sorted(same)}" + ("" if ok else " - a renewal during the breaker's pause goes "
+               "unnoticed: a live holder's lock is deleted and two writers commit on one base"))
 
 
 def owner_token_unique(ctx: Ctx, rid: str = "C19.R8") -> None:
